@@ -117,7 +117,7 @@ inductive WalkOut (K V : Type) where
   deriving Repr
 
 /-- the `while (cursor != NULL)` loop; `cursor` is an id -/
-def getnextLoop (tid : UInt8) (commit : Bool := true) : (fuel : Nat) → T (Entry K V) → Option Nat →
+def getnextLoop (tid : UInt8) : (fuel : Nat) → T (Entry K V) → Option Nat →
     Except Fault (T (Entry K V) × Option (Entry K V))
   | 0, _, _ => .error .outOfFuel
   | _, root, none => .ok (root, none)
@@ -129,23 +129,21 @@ def getnextLoop (tid : UInt8) (commit : Bool := true) : (fuel : Nat) → T (Entr
       match l with
       | .node _ la _ _ =>
         if la.tid != tid then
-          getnextLoop tid commit fuel (modify la.id (fun e => { e with next := some c }) root) (some la.id)
+          getnextLoop tid fuel (modify la.id (fun e => { e with next := some c }) root) (some la.id)
         else visit fuel root c a r
       | .nil => visit fuel root c a r
 where
   visit (fuel : Nat) (root : T (Entry K V)) (c : Nat) (a : Entry K V) (r : T (Entry K V)) :
       Except Fault (T (Entry K V) × Option (Entry K V)) :=
     if a.tid != tid then
-      -- with `newmem` the copies are made first; when they fail the node stays unvisited
-      if commit then .ok (modify c (fun e => { e with tid := tid }) root, some { a with tid := tid })
-      else .ok (root, some a)
+      .ok (modify c (fun e => { e with tid := tid }) root, some { a with tid := tid })
     else
       match r with
       | .node _ ra _ _ =>
         if ra.tid != tid then
-          getnextLoop tid commit fuel (modify ra.id (fun e => { e with next := some c }) root) (some ra.id)
-        else getnextLoop tid commit fuel root a.next
-      | .nil => getnextLoop tid commit fuel root a.next
+          getnextLoop tid fuel (modify ra.id (fun e => { e with next := some c }) root) (some ra.id)
+        else getnextLoop tid fuel root a.next
+      | .nil => getnextLoop tid fuel root a.next
 
 /-- `qtreetbl_getnext(tbl, obj, newmem)` for `obj ≠ NULL` -/
 def Tbl.getnext (s : Tbl K V) (cur : Cur) : Except Fault (Tbl K V × WalkOut K V) :=
@@ -157,7 +155,7 @@ def Tbl.getnext (s : Tbl K V) (cur : Cur) : Except Fault (Tbl K V × WalkOut K V
     let start := match cur.next with
       | some c => some c
       | none => rootId s1.root
-    match getnextLoop tid true (3 * s1.root.size + 3) s1.root start with
+    match getnextLoop tid (3 * s1.root.size + 3) s1.root start with
     | .error f => .error f
     | .ok (root, some a) =>
       .ok ({ s1 with root := root }, .item a.key a.val { tid := tid, next := some a.id })
